@@ -15,9 +15,13 @@ import (
 	"fmt"
 	"io"
 	"math"
+	"net"
+	"net/http"
 	"net/textproto"
+	"strconv"
 	"strings"
 	"testing"
+	"time"
 
 	"github.com/imroc/req/v3/internal/dump"
 	"github.com/imroc/req/v3/internal/verifh"
@@ -42,6 +46,60 @@ func (c *c04SegReader) Read(p []byte) (int, error) {
 	n := copy(p, c.segs[0])
 	c.segs[0] = c.segs[0][n:]
 	return n, nil
+}
+
+// c04SegConn: the segments as a net.Conn (for persistConn).
+type c04SegConn struct{ c04SegReader }
+
+func (c *c04SegConn) Write(p []byte) (int, error)        { return len(p), nil }
+func (c *c04SegConn) Close() error                       { return nil }
+func (c *c04SegConn) LocalAddr() net.Addr                { return &net.TCPAddr{} }
+func (c *c04SegConn) RemoteAddr() net.Addr               { return &net.TCPAddr{} }
+func (c *c04SegConn) SetDeadline(t time.Time) error      { return nil }
+func (c *c04SegConn) SetReadDeadline(t time.Time) error  { return nil }
+func (c *c04SegConn) SetWriteDeadline(t time.Time) error { return nil }
+
+// c04AheadFork: persistConn._readResponse over the segments; the head only, then everything unread.
+func c04AheadFork(segs [][]byte, B int, method string) (ans string) {
+	txt, p := verifh.Safely(func() {
+		conn := &c04SegConn{c04SegReader{segs: c04CloneSegs(segs)}}
+		pc := &persistConn{t: &Transport{}, conn: conn}
+		pc.br = bufio.NewReaderSize(pc, B)
+		pc.readLimit = pc.maxHeaderResponseSize()
+		req, _ := http.NewRequest(method, "http://verif.invalid/", nil)
+		resp, err := pc._readResponse(req)
+		if err != nil || resp == nil {
+			ans = "rej:" + c04ErrClass(err)
+			return
+		}
+		pc.readLimit = maxInt64
+		te := "0"
+		if len(resp.TransferEncoding) == 1 && resp.TransferEncoding[0] == "chunked" {
+			te = "1"
+		} else if len(resp.TransferEncoding) != 0 {
+			te = "?" + strings.Join(resp.TransferEncoding, ",")
+		}
+		cl := "0"
+		if resp.Close {
+			cl = "1"
+		}
+		rest, _ := io.ReadAll(pc.br)
+		ans = "ok proto=" + verifh.Hex(resp.Proto) + " status=" + verifh.Hex(resp.Status) +
+			" code=" + strconv.Itoa(resp.StatusCode) + " ver=" + strconv.Itoa(resp.ProtoMajor) + "." + strconv.Itoa(resp.ProtoMinor) +
+			" hdr=" + c04RenderMap(resp.Header) + " cl=" + strconv.FormatInt(resp.ContentLength, 10) +
+			" te=" + te + " close=" + cl + " framing=" + c04DerivedFraming(resp, resp.Body == NoBody) +
+			" rest=" + verifh.Hex(string(rest))
+	})
+	if p {
+		ans = "panic:" + txt
+	}
+	return
+}
+
+// c04BlankLedBlock: the byte behind the first line is a blank (readMIMEHeader's initial-line exit).
+func c04BlankLedBlock(stream string) bool {
+	i := strings.IndexByte(stream, '\n')
+	return i >= 0 && i+1 < len(stream) && (stream[i+1] == ' ' || stream[i+1] == '\t')
 }
 
 func c04SplitAt(s string, cuts ...int) [][]byte {
@@ -238,7 +296,74 @@ func TestVerif_C04_alias(t *testing.T) {
 			}
 		}
 	}
+	// the whole response head (_readResponse) over the explicit-array model (c04ahead = aparseHead,
+	// proved equal to the whole-stream parseHeadE: response_head_incremental_is_whole_stream)
+	runHead := func(stream string, segs [][]byte, B int, method string) {
+		if c04BlankLedBlock(stream) {
+			cnt.Count("ahead-blank-led-skipped")
+			return
+		}
+		var hs []string
+		for _, sg := range segs {
+			hs = append(hs, string(sg))
+		}
+		ans := c04AheadFork(segs, B, method)
+		m := "G"
+		if method == "HEAD" {
+			m = "H"
+		}
+		cnt.Count("ahead")
+		if strings.HasPrefix(ans, "ok ") {
+			cnt.Count("ahead-ok")
+		} else {
+			cnt.Count("ahead-" + strings.SplitN(ans, " ", 2)[0])
+		}
+		s.Case(fmt.Sprintf("c04ahead %s %d %s", m, B, verifh.HexList(hs)), ans, true, "", strings.HasPrefix(ans, "ok "),
+			fmt.Sprintf("%s B=%d segments %q -> %s", method, B, hs, c04Short(ans)))
+	}
+	for _, st := range []string{"HTTP/1.1 200 OK\r\n", "HTTP/1.0 404 Not Found\n", "HTTP/1.1 204\r\n"} {
+		for _, h := range c04AliasHeads() {
+			msg := st + h
+			for _, B := range []int{16, 64} {
+				runHead(msg, c04SplitAt(msg), B, "GET")
+				for p := 1; p < len(msg); p++ {
+					runHead(msg, c04SplitAt(msg, p), B, "GET")
+				}
+			}
+		}
+	}
+	for _, msg := range []string{
+		"HTTP/1.1 200 OK\r\nTransfer-Encoding: chunked\r\nTrailer: X-T\r\nConnection: x\r\nconnection: close\r\n\r\n5\r\nhello\r\n0\r\n\r\n",
+		"HTTP/1.1 200 OK\r\nContent-Length: 5\r\nContent-Length: 5\r\nPragma: no-cache\r\n\r\nhelloNEXT",
+		"HTTP/1.1 200 OK\r\nContent-Length: 5\r\nContent-Length: 6\r\n\r\nhello",
+		"HTTP/1.1 200 OK\r\nTransfer-Encoding: gzip\r\n\r\n",
+		"HTTP/1.1 2x0 OK\r\nContent-Length: 5\r\n\r\nhello",
+	} {
+		for _, B := range []int{16, 64} {
+			for _, method := range []string{"GET", "HEAD"} {
+				for p := 1; p < len(msg); p++ {
+					runHead(msg, c04SplitAt(msg, p), B, method)
+					runHead(msg, c04SplitAt(msg, p, p+1), B, method)
+				}
+			}
+		}
+	}
 	g := &c04Gen{r: r}
+	for i := 0; i < verifh.N(800, 10000); i++ {
+		g.tags = nil
+		msg := g.response()
+		if r.Intn(5) == 0 {
+			msg = g.mutate(msg)
+		}
+		if len(msg) == 0 {
+			continue
+		}
+		var cuts []int
+		for p := 1 + r.Intn(30); p < len(msg) && p < 2000; p += 1 + r.Intn(30) {
+			cuts = append(cuts, p)
+		}
+		runHead(msg, c04SplitAt(msg, cuts...), verifh.Pick(r, []int{16, 64, 4096}), verifh.Pick(r, []string{"GET", "HEAD"}))
+	}
 	n := verifh.N(1500, 20000)
 	for i := 0; i < n; i++ {
 		g.tags = nil
@@ -278,7 +403,7 @@ func TestVerif_C04_alias(t *testing.T) {
 		cnt.Count("random")
 	}
 	s.Finish()
-	for _, need := range []string{"end-blank", "end-invalid", "end-eof", "segment-ends-one-byte-into-line", "every-position", "random", "dump-on-same", "amime", "amime-err=eof", "amime-err=header"} {
+	for _, need := range []string{"end-blank", "end-invalid", "end-eof", "segment-ends-one-byte-into-line", "every-position", "random", "dump-on-same", "amime", "amime-err=eof", "amime-err=header", "ahead", "ahead-ok", "ahead-rej:eof", "ahead-rej:header", "ahead-rej:status", "ahead-rej:cl", "ahead-rej:te"} {
 		if cnt.m[need] == 0 {
 			t.Errorf("C04/alias generator never reached bucket %q", need)
 		}
